@@ -89,7 +89,7 @@ var c18Grid = []time.Duration{0, time.Millisecond, 10 * time.Millisecond, 100 * 
 
 func TestC18(t *testing.T) {
 	rec := ev.Get("C18")
-	rec.Rule("per case a synctest bubble: 0..5 targets given as comma-separated IP literals (plus resolve-error targets from over-long names and targets removed by the address family), per-target behaviour {succeed after d, fail after d, hang until the context ends, ignore the context and succeed/fail after d, be rejected by the server with retry configs after d and then succeed/fail/hang on the one retry} with d from a 12-point grid 0..40 s, MaxConcurrency 0..4, ConcurrencyDelay {default,10 ms,1 s,5 s}, Timeout {default,50 ms,2 s,35 s}, caller cancellation at a drawn time or never, network tcp/tcp4/tcp6. Oracle: invariants over the virtual-time event log (order, concurrency bound, stagger, per-attempt deadline (the retry after an ECH rejection shares the deadline the attempt began with), first success wins and is returned at its completion time, losers closed, joined errors, prompt cancellation, attempts begun after the outcome see a cancelled context) no goroutine of the Dialer alive at the first instant at which Dial has returned and no attempt is outstanding, and none left blocked when the bubble ends. distinct = (behaviour vector, options); non-trivial = 2+ dialed targets and at least one success")
+	rec.Rule("per case a synctest bubble: 0..5 targets given as comma-separated IP literals (plus resolve-error targets from over-long names and targets removed by the address family), per-target behaviour {succeed after d, fail after d, hang until the context ends, ignore the context and succeed/fail after d, be rejected by the server with retry configs after d and then succeed/fail/hang/be rejected again on the one retry} with d from a 12-point grid 0..40 s, MaxConcurrency 0..4, ConcurrencyDelay {default,10 ms,1 s,5 s}, Timeout {default,50 ms,2 s,35 s}, caller cancellation at a drawn time or never, network tcp/tcp4/tcp6. Oracle: invariants over the virtual-time event log (order, concurrency bound, stagger, per-attempt deadline (the retry after an ECH rejection shares the deadline the attempt began with), first success wins and is returned at its completion time, losers closed, joined errors, prompt cancellation, attempts begun after the outcome see a cancelled context) no goroutine of the Dialer alive at the first instant at which Dial has returned and no attempt is outstanding, and none left blocked when the bubble ends. distinct = (behaviour vector, options); non-trivial = 2+ dialed targets and at least one success")
 	rec.Mandatory("two_successes_in_window", "success_after_cancel", "all_hang", "maxconc1_5targets", "late_winner", "no_address", "all_fail", "caller_cancel", "resolve_error_target", "ech_reject_retry")
 	rapid.Check(t, func(rt *rapid.T) {
 		network := rapid.SampledFrom([]string{"tcp", "tcp", "tcp4", "tcp6"}).Draw(rt, "network")
@@ -100,7 +100,7 @@ func TestC18(t *testing.T) {
 			b := c18Behaviour{Kind: rapid.SampledFrom([]string{"ok", "ok", "fail", "fail", "hang", "ok_ignore_ctx", "fail_ignore_ctx"}).Draw(rt, "kind"), D: c18Grid[rapid.IntRange(0, len(c18Grid)-1).Draw(rt, "d")]}
 			if rapid.IntRange(0, 5).Draw(rt, "ech_reject") == 0 {
 				b.Kind = "reject_retry"
-				b.Kind2 = rapid.SampledFrom([]string{"ok", "fail", "hang", "hang"}).Draw(rt, "kind2")
+				b.Kind2 = rapid.SampledFrom([]string{"ok", "fail", "hang", "hang", "reject_again", "reject_again"}).Draw(rt, "kind2")
 				b.D2 = c18Grid[rapid.IntRange(0, len(c18Grid)-1).Draw(rt, "d2")]
 			}
 			switch rapid.IntRange(0, 9).Draw(rt, "addrkind") {
@@ -242,6 +242,17 @@ func TestC18(t *testing.T) {
 							rejected[i] = true
 							mu.Unlock()
 							return nil, fmt.Errorf("%w: %w", sentinels[i], &tls.ECHRejectionError{RetryConfigList: []byte("retry-configs")})
+						case <-ctx.Done():
+							return finish(nil, fmt.Errorf("%w: %w", sentinels[i], ctx.Err()))
+						}
+					case "reject_again":
+						// the server rejects the retry configs it handed out itself: the one retry is
+						// used up, this attempt has failed (with that rejection as its error)
+						tm := time.NewTimer(dNow)
+						defer tm.Stop()
+						select {
+						case <-tm.C:
+							return finish(nil, fmt.Errorf("%w: %w", sentinels[i], &tls.ECHRejectionError{RetryConfigList: []byte("retry-configs-2")}))
 						case <-ctx.Done():
 							return finish(nil, fmt.Errorf("%w: %w", sentinels[i], ctx.Err()))
 						}
